@@ -4,4 +4,4 @@ From Martian.C04 Require Import Model.
 Extraction Language OCaml.
 Extraction "model.ml" base_anchor repaired original init step run quiescentb settle
   run_script spec_views measure_view c04_ok c04_first_fail released_ok all_shut
-  connect_response fail_ok after_tunnel_here probe_ok probe_agrees connect_downstream down_ok is_2xx expected_status status_ok eos_flag.
+  connect_response fail_ok after_tunnel_here probe_ok probe_agrees connect_downstream down_ok is_2xx expected_status status_ok eos_flag target_release_ok target_release_agrees stream_ok tunnel_cut.
